@@ -159,6 +159,9 @@ class CallMixin:
             return [(st, self.new_set(st, z3.Lambda([k], z3.Contains(seq, z3.Unit(k)))))]
         raise Unsupported("set(%r)" % (o,))
 
+    def b_frozenset(self, ex, st, node, args, kwargs):
+        return self.b_set(ex, st, node, args, kwargs)
+
     def b_list(self, ex, st, node, args, kwargs):
         if not args:
             return [(st, self.new_list(st, z3.Empty(SeqI)))]
